@@ -1,5 +1,6 @@
 import AFDriver.Wire
 import AFModel.Query
+import AFModel.QuerySql
 
 /-! Driver for C10: decodes a database + predicate + ordering + slices, runs the `Query` model. -/
 
@@ -8,19 +9,28 @@ open AF AF.Wire AF.Query
 
 namespace AF.Driver
 
-/-- numbers travel and are stored as IEEE-754 bit patterns (decidable equality); compared as doubles -/
-abbrev F64 := UInt64
+/-- numbers travel and are stored as IEEE-754 bit patterns (decidable equality), compared as doubles; a query
+constant also carries python's `str(value)` (what the query objects print into the SQL) -/
+structure Lit where
+  bits : UInt64
+  text : String := ""
+  deriving DecidableEq, Inhabited
+
+abbrev F64 := Lit
 
 def c10Ops : NumOps F64 :=
   ⟨fun op a b =>
-    let x := Float.ofBits a
-    let c := Float.ofBits b
+    let x := Float.ofBits a.bits
+    let c := Float.ofBits b.bits
     match op with
     | .eq => x == c | .lt => x < c | .le => x ≤ c | .gt => x > c | .ge => x ≥ c⟩
 
-def c10NumLe (a b : F64) : Bool := Float.ofBits a ≤ Float.ofBits b
+def c10NumLe (a b : F64) : Bool := Float.ofBits a.bits ≤ Float.ofBits b.bits
 
-def c10Bits (j : Json) (k : String) : Except String F64 := do pure (← getFloat j k).toBits
+def c10Bits (j : Json) (k : String) : Except String F64 := do
+  pure { bits := (← getFloat j k).toBits, text := (getStr j "t").toOption.getD "" }
+
+def c10Show (x : F64) : String := x.text
 
 def c10Cmp : String → Except String Cmp
   | "eq" => pure .eq | "lt" => pure .lt | "le" => pure .le | "gt" => pure .gt | "ge" => pure .ge
@@ -68,6 +78,7 @@ def c10Leaf (j : Json) : Except String (Leaf F64) := do
   | "str" => pure (.str (← c10Cmp (← getStr j "op")) (← getStr c "v"))
   | "none" => pure .nul
   | "cls" => pure (.cls (← getStr c "path"))
+  | "any" => pure .any
   | s => throw s!"bad const kind {s}"
 
 partial def c10Pred (j : Json) : Except String (Pred F64) := do
@@ -162,7 +173,27 @@ def handleC10 (j : Json) : Except String Json := do
   let rowsSel := match pred with
     | some p => (rowsQueryFits c10Ops rows (compileTop cfg p) sdb).map (·.fit)
     | none => db
+  -- the junctions with their conditions held in a set, and the SQL text printed from them
+  let key := sqlStr c10Show
+  -- bare-path predicates (`agg.model.g`) in junctions: repaired (not merged) or as the pinned commit (observed)
+  let bare := (getBool cfgJ "bareNotMerged").toOption.getD true
+  let qS := pred.map (compileSTop cfg bare Q.same key)
+  let qT := pred.map (compileSTop cfg bare (fun a b => key a == key b) key)
+  let selS := match qS with
+    | some q => queryFits c10Ops q db
+    | none => db
   pure (Json.mkObj [
+    ("match_set", c10Ids selS),
+    ("sql", Json.str (match qS with | some q => fitSql c10Show q | none => "SELECT id FROM fit")),
+    ("sql_str", Json.str (match qS with | some q => key q | none => "SELECT id FROM fit")),
+    ("render_set", Json.str (match qS with | some q => q.render | none => "")),
+    -- de-duplication by structure (the theorems) and by SQL string (the code) build the same query
+    ("dedup_agree", Json.bool (match qS, qT with
+      | some a, some b => a.same b
+      | _, _ => true)),
+    ("fuel_ok_set", Json.bool (match pred with
+      | some p => (compileSTop cfg bare Q.same key p).same (compileS cfg bare Q.same key (p.depth + 9) p)
+      | none => true)),
     ("rows_match", c10Ids rowsSel),
     ("stored", Json.arr (sdb.map (fun sf => Json.bool (stored rows sf))).toArray),
     ("match", c10Ids sel),
